@@ -2,6 +2,44 @@ from concfam import ASSUME, conc_runs, judge, replay as _replay
 from vlib import HarnessError, finish, mc_coverage, tlc_mc, trace_lines
 
 
+def gate_replay(ctx):
+    """spec -> code: every schedule TLC enumerates from ReadPathGen.tla is forced on the real DB through the gate hooks."""
+    import json
+    import os
+    from kvfam import validate_traces
+    from vlib import build, parallel, read_line, report_violation, run_driver, save_replay
+    r = tlc_mc(ctx, "ReadPathGen.tla", "ReadPathGen.cfg", timeout=900, workers=1,
+               label="ReadPathGen.tla: all interleavings of one reader with write/rotate/flush steps (schedule generation)")
+    sched = ctx.path("schedules.txt")
+    with open(sched, "w") as f:
+        f.write("\n".join(x for x in r["out"].splitlines() if "VERIF-SCHED" in x) + "\n")
+    nsched = sum(1 for x in open(sched) if "VERIF-SCHED" in x)
+    exe = build("gatedb")
+    nproc = 8
+    stride = (3 if ctx.quick else 1) * nproc
+
+    def drive(i):
+        out = ctx.path("gate-%d.ndjson" % i)
+        off = (ctx.seed % 3) * nproc + i if ctx.quick else i
+        s = run_driver([exe, "-in", sched, "-out", out, "-stride", str(stride), "-offset", str(off)], timeout=1200)
+        s["path"], s["seed"], s["row"], s["cmd"] = out, i, "gate", "gatedb -stride %d -offset %d" % (stride, off)
+        return s
+
+    sums = parallel(drive, list(range(nproc)), workers=nproc)
+    fails = validate_traces(ctx, "ReadPathTrace.tla", "ReadPathTrace.cfg", sums, chunk=1)
+    for t, rr in fails:
+        line = read_line(t["path"], rr["hwm"]) or "{}"
+        ev = json.loads(line)
+        ctxl = trace_lines(t["path"], max(1, rr["hwm"] - 14), rr["hwm"])
+        rp = save_replay(ctx, "gate-%d-line%d" % (t["seed"], rr["hwm"]), [t["path"]],
+                         {"property": ctx.pid, "stuck_line": rr["hwm"], "event": ev, "schedule_and_answer": ctxl})
+        report_violation(ctx, "c05:gate:%s" % ev.get("ev"),
+                         "forced schedule: the real reader's answer differs from ReadPath.tla's: %s" % json.dumps(ctxl)[-700:], rp)
+    ctx.extra["schedules_generated_by_tlc"] = nsched
+    ctx.extra["schedule_runs_on_real_code"] = sum(s["runs"] for s in sums)
+    ctx.extra["point_reads_answered_from_buffers"] = sum(s["answered_from_buffers"] for s in sums)
+
+
 def main(ctx):
     tlc_mc(ctx, "ReadPath.tla", "ReadPath_quick.cfg", timeout=900, label="ReadPath.tla: reader acquisition order vs publication, as coded")
     if not ctx.quick:
@@ -10,6 +48,7 @@ def main(ctx):
                        label="ReadPath.tla with one pair of steps swapped (must be violated: non-vacuity)")
             if not r["violated"]:
                 raise HarnessError("ReadPath mutant %d no longer violates ReadCorrect" % m)
+    gate_replay(ctx)
     n = 28 if ctx.quick else 240
     jobs = [{"seed": ctx.seed * 1000 + i, "tag": "lin", "writers": 2 + i % 3, "readers": 2 + i % 3,
              "n": 140 if ctx.quick else 400} for i in range(n)]
